@@ -6,5 +6,5 @@ if [ ! -d $WT ]; then mkdir -p /var/tmp/seedrun; git -C /repo worktree add --det
 cd $WT && git checkout -q -- . && git clean -fdq && git checkout -q --detach $(git -C /repo rev-parse HEAD)
 git apply $PATCH || { echo "PATCH DOES NOT APPLY"; exit 3; }
 cd /verif
-for id in "$@"; do BW_REPO=$WT ./check $id | grep -E "^(VIOLATION|  rule=|C[0-9]+:|KNOWN|check:)" ; done
+for id in "$@"; do BW_EVIDENCE_DIR=/var/tmp/seedrun/evidence BW_REPO=$WT ./check $id | grep -E "^(VIOLATION|  rule=|C[0-9]+:|KNOWN|check:)" ; done
 cd $WT && git checkout -q -- . && git clean -fdq
